@@ -1,6 +1,8 @@
 import EqsigVerif.Prelude.Wire
 import EqsigVerif.Prelude.Interp
 import EqsigVerif.Model.TimeStep
+import EqsigVerif.Model.Resample
+import EqsigVerif.Prelude.Cplx
 /-! driver handlers for `Prelude/Interp.lean` and `Model/TimeStep.lean` -/
 namespace EqsigVerif.Handlers.TimeStep
 open EqsigVerif EqsigVerif.Wire EqsigVerif.Interp EqsigVerif.Model.TimeStep
@@ -54,9 +56,19 @@ def resampleNptsH : Handler
     pure (ofExcept (fun k => [[toString k]]) (resampleNpts n f e))
   | _ => throw "resample_npts: expected 3 args"
 
+/-- `resample|<num>|<x floats…>` → `ok|<re…>|<im…>` of `Model.Resample.resample` at `Cx Float` (model of `scipy.signal.resample(x, num)`),
+or `err|<kind>` -/
+def resampleH : Handler
+  | [n, xs] => do
+    let n ← nat1 n; let xs ← floats xs
+    let zs : List (Cplx.Cx Float) := xs.map (fun x => ⟨x, 0.0⟩)
+    pure (ofExcept (fun (ys : List (Cplx.Cx Float)) => [outFloats (ys.map (·.re)), outFloats (ys.map (·.im))])
+      (EqsigVerif.Model.Resample.resample (α := Float) Cplx.twFloat zs n))
+  | _ => throw "resample: expected 2 args"
+
 def handlers : List (String × Handler) :=
   [("interp_unit", interpUnitH), ("np_interp", npInterpH), ("factor_rule", factorRuleH),
    ("interp_to_approx_dt", interpToApproxDtH), ("interp_array_to_approx_dt", interpArrayToApproxDtH),
-   ("resample_npts", resampleNptsH)]
+   ("resample_npts", resampleNptsH), ("resample", resampleH)]
 
 end EqsigVerif.Handlers.TimeStep
